@@ -14,7 +14,7 @@ func profStaking() *Profile {
 		"block": 25, "epoch": 4, "longblock": 3, "month": 1,
 		"stake": 6, "modify": 6, "movestake": 4, "unstake": 4, "freeze": 1, "unfreeze": 1,
 		"ds_delegate": 8, "ds_redelegate": 7, "ds_unbond": 7, "ds_claim": 2,
-		"st_delegate": 6, "st_undelegate": 7, "st_redelegate": 6, "st_cancel": 4, "slash": 3,
+		"st_delegate": 6, "st_undelegate": 7, "st_redelegate": 6, "st_cancel": 4, "st_batch": 3, "slash": 3,
 		"buy": 1, "relay": 6,
 	}
 	return &Profile{Name: "staking", W: w, Providers: 6, Consumers: 2, Delegators: 4, Validators: 3, KeepPools: true}
@@ -42,7 +42,8 @@ func TestC06(t *testing.T) {
 	for _, k := range []string{"st_delegate", "st_undelegate", "st_redelegate", "st_cancel", "slash", "ds_delegate", "ds_redelegate", "ds_unbond", "stake", "movestake", "unstake"} {
 		run.Require("successful "+k, run.Counter("ok:"+k) > 0)
 	}
-	run.Finish("staking-heavy generated histories; after every tx and block, for every delegator known to x/staking or dualstaking, |sum validator tokens - sum provider delegations| <= number of validator delegations (the code's own per-delegation ceil) and no negative amount; suspended between a slash and the next block boundary; a history is non-trivial when it contains successful x/staking undelegate/redelegate/slash AND dualstaking unbond/redelegate", nHist/2,
+	run.Require("batched x/staking txs with a redelegation among the messages were sent and rejected", run.Counter("tx:st_batch") > run.Counter("ok:st_batch") && run.Counter("ok:st_batch") > 0)
+	run.Finish("staking-heavy generated histories (single-message txs and batches of 2-3 x/staking messages with a redelegation in a random position); after every tx and block, for every delegator known to x/staking or dualstaking, |sum validator tokens - sum provider delegations| <= number of validator delegations (the code's own per-delegation ceil) and no negative amount; suspended between a slash and the next block boundary; a history is non-trivial when it contains successful x/staking undelegate/redelegate/slash AND dualstaking unbond/redelegate", nHist/2,
 		"quiescent = after a committed tx or a finished block; failed txs are rolled back like baseapp does")
 }
 
